@@ -91,7 +91,7 @@ theorem modStep_eq (m : Sys ℝ) (i : StepIn ℝ) :
        let cvs' := setF (fbOf upd) cvs
        ({ m with clock := c, cvs := endStep cvs', biases := upd.map fun x => (x.1, x.2.1),
                  lastApplied := atomFOf cvs' },
-        { energy := sumL (upd.map fun x => x.2.2.1), atomF := atomFOf cvs' })) := rfl
+        { energy := sumL (upd.map fun x => if x.2.1.applies then x.2.2.1 else 0.0), atomF := atomFOf cvs' })) := rfl
 
 /-- the variables as the biases see them at this step -/
 noncomputable def cvsAt (m : Sys ℝ) (i : StepIn ℝ) : List (CvSt ℝ) :=
@@ -102,8 +102,8 @@ noncomputable def updAt (m : Sys ℝ) (i : StepIn ℝ) : List Upd :=
   m.biases.map (updOne m (m.clock.tick i.cont) (cvsAt m i))
 
 theorem modStep_energy (m : Sys ℝ) (i : StepIn ℝ) :
-    (modStep m i).2.energy = ((updAt m i).map fun x => x.2.2.1).sum := by
-  rw [← sumL_eq]; rfl
+    (modStep m i).2.energy = ((updAt m i).map fun x => if x.2.1.applies then x.2.2.1 else 0).sum := by
+  rw [← zero_lit, ← sumL_eq]; rfl
 
 theorem modStep_atomF (m : Sys ℝ) (i : StepIn ℝ) :
     (modStep m i).2.atomF = atomFOf (setF (fbOf (updAt m i)) (cvsAt m i)) := rfl
@@ -174,6 +174,50 @@ theorem atomSum_zero (idx : List Nat) (cvs : List (CvSt ℝ)) (φ : Nat → ℝ)
   intro x hx
   obtain ⟨iv, _, rfl⟩ := List.mem_map.mp hx
   simp [h]
+
+/-- forces that are all zero, zipped with variable indices and scaled, add nothing under any key -/
+theorem kvSum_zip_zeros (idx : List Nat) (n : Nat) (c : ℝ) (a : Nat) :
+    kvSum ((idx.zip (List.replicate n (0.0 : ℝ))).map fun (kv : Nat × ℝ) => (kv.1, c * kv.2)) a = 0 := by
+  unfold kvSum
+  apply List.sum_eq_zero
+  intro x hx
+  obtain ⟨kv', hkv', rfl⟩ := List.mem_map.mp hx
+  obtain ⟨kv, hkv, rfl⟩ := List.mem_map.mp hkv'
+  have h0 : kv.2 = 0 := by
+    have := List.eq_of_mem_replicate (List.of_mem_zip hkv).2
+    rw [this, zero_lit]
+  simp [h0]
+
+theorem kvSum_nil (a : Nat) : kvSum [] a = 0 := by simp [kvSum]
+
+/-- per-bias forces that sum to zero under every key give no force on any atom -/
+theorem atomF_zero_of_kvSum (m : Sys ℝ) (i : StepIn ℝ) (h : ∀ x ∈ updAt m i, ∀ k, kvSum x.2.2.2 k = 0) (a : Nat) :
+    lookupF (modStep m i).2.atomF a = 0 := by
+  rw [modStep_atomF, lookupF_atomFOf]
+  apply atomSum_zero
+  intro k
+  rw [lookupF_fbOf]
+  apply List.sum_eq_zero
+  intro y hy
+  obtain ⟨x, hx, rfl⟩ := List.mem_map.mp hy
+  exact h x hx k
+
+/-- the force of an ABF that does not apply its bias -/
+theorem abfStep_off (p : AbfParams ℝ) (s : AbfState ℝ) (inp : AbfIn ℝ) (hoff : p.applyBias = false) :
+    (abfStep p s inp).2 = List.replicate (nvars p) 0.0 := by
+  simp [abfStep, hoff]
+
+/-- what the step computes for an ABF with `applyBias off`: still an ABF with the same parameters, and forces that
+    sum to zero under every key -/
+theorem abf_off_updAt (m : Sys ℝ) (i : StepIn ℝ) (name : String) (idx : List Nat) (p : AbfParams ℝ) (s : AbfState ℝ)
+    (hb : m.biases = [(name, .abf idx p s)]) (hoff : p.applyBias = false) :
+    ∃ s' e kvs, updAt m i = [(name, (.abf idx p s', e, kvs))] ∧ ∀ k, kvSum kvs k = 0 := by
+  by_cases hs : awake (m.clock.tick i.cont) (tsfOf m name) = true
+  · refine ⟨_, _, _, by simp only [updAt, hb, List.map_cons, List.map_nil, updOne, hs, biasUpdate]; rfl, ?_⟩
+    intro k
+    simp only [abfStep_off _ _ _ hoff]
+    exact kvSum_zip_zeros _ _ _ _
+  · exact ⟨s, 0.0, [], by simp only [updAt, hb, List.map_cons, List.map_nil, updOne, hs]; rfl, kvSum_nil⟩
 
 /-! ## variables up to the force fields -/
 
